@@ -12,7 +12,11 @@ FOS := 0 1 2 3 4 5 6 7
 SIMSYS_LIGHT := simsys/driver.cpp simsys/profiles.cpp $(wildcard simsys/p_*.cpp)
 SIMSYS_HDRS := $(wildcard simsys/*.h) $(wildcard sim/*.h)
 
-all: $(B)/simsys_plain $(B)/simcomp
+all: $(B)/simsys_plain $(B)/simcomp $(B)/simq
+
+$(B)/simq: simq/simq.cpp simq/simq_cases.h simq/atomic_wmm.h simq/quill_queues.h sim/prelude.h sim/batch_driver.h $(QUILL_HDRS)
+	@mkdir -p $(B)
+	$(CXX) -std=c++17 -O1 -g -pthread -I sim -I $(REPO)/include -Wno-unused-result $< -o $@
 
 $(B)/simcomp: simcomp/simcomp.cpp simcomp/simcomp_driver.h sim/batch_driver.h $(QUILL_HDRS)
 	@mkdir -p $(B)
